@@ -17,12 +17,15 @@ def domain_tree(tokens, names):
               S(":effect"), L(S("and"), L(S("forall"), L(S("?z"), S("-"), S(t)), L(S("when"), L(S("r")), L(S("m"), S("?z"))))))
             for t in tys]
     return L(S("define"), L(S("domain"), S("ty")), L(S(":requirements"), S(":typing")),
-             L(S(":types"), *tokens), L(S(":predicates"), *preds), *acts)
+             L(S(":types"), *tokens), L(S(":predicates"), *preds), L(S(":functions"), L(S("cnt"))), *acts)
 
 
-def problem_tree(objs, fact):
+def problem_tree(objs, fact, with_fluent=False):
+    init = [L(*[S(x) for x in fact])]
+    if with_fluent:
+        init.append(L(S("="), L(S("cnt")), {"t": "n", "v": [0, 1]}))
     return L(S("define"), L(S("problem"), S("pt")), L(S(":domain"), S("ty")),
-             L(S(":objects"), *typed(objs)), L(S(":init"), L(*[S(x) for x in fact])), L(S(":goal"), L(S("and"))))
+             L(S(":objects"), *typed(objs)), L(S(":init"), *init), L(S(":goal"), L(S("and"))))
 
 
 def run_case(case, opts):
@@ -61,6 +64,11 @@ def run_case(case, opts):
             k += 1
             fact = ([f"n_{t2}", f"o_{t1}"], [f"b_{t2}", f"o_{t1}", f"o_{t2}"], [f"u_{t2}", f"o_{t1}", "o_object"])[k % 3]
             ptree = problem_tree(objs, fact)
+            if k % 2:
+                # problem after problem against this one Domain object, the same object name declared with another
+                # type each time (and a fluent in :init): what a problem declares must not outlive it
+                xfact = [fact[0], "x"] + (["y"] if len(fact) == 3 else [])
+                ptree = problem_tree([["x", t1], ["y", t2 if fact[0].startswith("b_") else "object"]], xfact, with_fluent=True)
             out, _ = pylib.observe_problem(layout.pretty(ptree), dom)
             ev.append({"c": "ParseProblem", "h": f"p{k}", "d": "d", "tree": ptree, "out": out})
     ev.append({"c": "Snap", "snap": {"d": domain_digest(dom), "s0": pylib.project_state(state)}})
